@@ -405,9 +405,13 @@ def drive(modname: str, tier: str, base_seed: int, jobs: int, runs_override: int
                 pass
             continue
         # new violation: confirm, minimise, write replay
-        v = min(vs, key=lambda x: x["seed"])
-        seed = v["seed"]
-        plan, res = run_seed(mod, seed, tier)
+        # (state leaking from one run into later runs of a worker - a defect class of its own - makes some occurrences
+        # unreproducible in a fresh process: try a few seeds before giving up on the signature)
+        for v in sorted(vs, key=lambda x: x["seed"])[:8]:
+            seed = v["seed"]
+            plan, res = run_seed(mod, seed, tier)
+            if sig in _sigs(res):
+                break
         if sig not in _sigs(res):
             # a violation seen in a worker that the parent cannot reproduce is never reported as a VIOLATION (it would not replay);
             # other, reproducible violations of the same batch are still reported
